@@ -391,10 +391,12 @@ def is_edge_items(e, hname):
     return False
 
 
-def loop_key_ok(it, tgt, key, hname, edges):
+def loop_key_ok(it, tgt, key, hname, edges, fn=None):
     """A loop/comprehension `for tgt in it` stores under `key`: do the keys range over the node (or edge) view?"""
     if not isinstance(key, ast.Name):
         return False
+    if fn is not None:
+        it = deref_once(fn, it)
     if is_nodes_iter(it, hname) and not edges and isinstance(tgt, ast.Name) and tgt.id == key.id:
         return True
     if edges:
@@ -404,6 +406,23 @@ def loop_key_ok(it, tgt, key, hname, edges):
         if kind == "items" and isinstance(tgt, ast.Tuple) and tgt.elts and isinstance(tgt.elts[0], ast.Name) and tgt.elts[0].id == key.id:
             return True
     return False
+
+
+def deref_once(fn, e, depth=0):
+    """e with local names that are bound exactly once (to something that is not rebuilt in a loop) replaced by what they
+    are bound to: `edge_members = H.edges.members(dtype=dict)` ... `edge_members.items()`."""
+    if depth > 3:
+        return e
+    if isinstance(e, ast.Name):
+        ds = defs_of(fn, e.id)
+        if len(ds) == 1 and isinstance(ds[0], ast.AST) and e.id not in fn.all_params:
+            return deref_once(fn, ds[0], depth + 1)
+        return e
+    if isinstance(e, ast.Call) and isinstance(e.func, ast.Attribute) and e.func.attr in ("items", "keys", "values") and not e.args:
+        inner = deref_once(fn, e.func.value, depth + 1)
+        if inner is not e.func.value:
+            return ast.Call(func=ast.Attribute(value=inner, attr=e.func.attr, ctx=ast.Load()), args=[], keywords=[])
+    return e
 
 
 def stores_into(fn, name):
@@ -441,7 +460,7 @@ def key_source(fn, e, hname, depth=0, edges=False, repo=None, self_name=None):
         # filled by subscript stores: every store's key must range over the view
         stores = stores_into(fn, self_name)
         for st, key, loops in stores:
-            if not any(loop_key_ok(lp.iter, lp.target, key, hname, edges) for lp in loops):
+            if not any(loop_key_ok(lp.iter, lp.target, key, hname, edges, fn) for lp in loops):
                 return False, f"`{unparse(st, 40)}` stores under a key that does not range over the {'edge' if edges else 'node'} view"
         return True, "empty" if not stores else f"filled in a loop over the {'edge' if edges else 'node'} view"
     if isinstance(e, ast.Dict):
@@ -451,7 +470,7 @@ def key_source(fn, e, hname, depth=0, edges=False, repo=None, self_name=None):
     if isinstance(e, ast.DictComp):
         it = e.generators[0].iter
         tgt = e.generators[0].target
-        if len(e.generators) == 1 and not e.generators[0].ifs and loop_key_ok(it, tgt, e.key, hname, edges):
+        if len(e.generators) == 1 and not e.generators[0].ifs and loop_key_ok(it, tgt, e.key, hname, edges, fn):
             return True, f"comprehension over the {'edge' if edges else 'node'} view"
         # {nodedict[i]: pos[i] for i in nodedict}  (index map of to_bipartite_graph)
         if isinstance(it, ast.Name) and isinstance(e.key, ast.Subscript) and isinstance(e.key.value, ast.Name) and e.key.value.id == it.id:
@@ -538,12 +557,26 @@ def check_order(repo, res):
         raise AnalysisError("draw_nodes not found (anchor vanished)")
     # the coordinate array passed to scatter
     ok = False
-    for s in own_statements(dn.node):
-        if isinstance(s, ast.Assign) and isinstance(s.value, ast.Call) and s.value.args and isinstance(s.value.args[0], ast.ListComp):
-            comp = s.value.args[0]
+
+    def view_order_coords(value, posname):
+        """np.asarray([pos[v] for v in H.nodes]) (any wrapper call around the comprehension)"""
+        if isinstance(value, ast.Call) and value.args and isinstance(value.args[0], ast.ListComp):
+            comp = value.args[0]
             g = comp.generators[0]
-            if isinstance(comp.elt, ast.Subscript) and isinstance(comp.elt.value, ast.Name) and comp.elt.value.id == "pos" and isinstance(g.iter, ast.Attribute) and g.iter.attr == "nodes" and not g.ifs:
-                ok = True
+            return isinstance(comp.elt, ast.Subscript) and isinstance(comp.elt.value, ast.Name) and comp.elt.value.id == posname and isinstance(g.iter, ast.Attribute) and g.iter.attr == "nodes" and not g.ifs and isinstance(comp.elt.slice, ast.Name) and isinstance(g.target, ast.Name) and comp.elt.slice.id == g.target.id
+        return False
+
+    for s in own_statements(dn.node):
+        if isinstance(s, ast.Assign) and view_order_coords(s.value, "pos"):
+            ok = True
+        # a same-module helper handed `pos` that returns the stacked coordinates on every return
+        if isinstance(s, ast.Assign) and isinstance(s.value, ast.Call) and isinstance(s.value.func, ast.Name) and s.value.func.id in mi.functions:
+            h = mi.functions[s.value.func.id]
+            pidx = [i for i, a in enumerate(s.value.args) if isinstance(a, ast.Name) and a.id == "pos"]
+            if pidx and pidx[0] < len(h.params):
+                rets = [r for r in ast.walk(h.node) if isinstance(r, ast.Return) and r.value is not None]
+                if rets and all(view_order_coords(r.value, h.params[pidx[0]]) for r in rets):
+                    ok = True
         # loop form: coords = []; for v in H.nodes: coords.append(pos[v]); xy = np.asarray(coords)
         if isinstance(s, ast.Assign) and isinstance(s.value, ast.Call) and s.value.args and isinstance(s.value.args[0], ast.Name):
             lst = s.value.args[0].id
